@@ -141,12 +141,12 @@ impl<O: OffsetSizeTrait> Hist for Str<O> {
             3 => b.append_option(if r.chance(50) { None } else { Some(any_str(r)) }),
             4 => b.append_null(),
             5 => b.append_nulls(r.below(9)),
-            6 => b.append_array(&GenericStringArray::<O>::from(opt_strs(r, 4))),
+            6 => b.append_array(&GenericStringArray::<O>::from(opt_strs(r, 4))).unwrap(),
             7 => {
                 let a = GenericStringArray::<O>::from(opt_strs(r, 7));
-                b.append_array(&maybe_slice(r, a, |a, o, l| a.slice(o, l)))
+                b.append_array(&maybe_slice(r, a, |a, o, l| a.slice(o, l))).unwrap()
             }
-            8 => b.extend(opt_strs(r, r.below(5))),
+            8 => { let k = r.below(5); b.extend(opt_strs(r, k)) },
             _ => {
                 use std::fmt::Write;
                 let _ = write!(b, "{}-{}", short(r), 42);
@@ -170,7 +170,7 @@ impl Hist for Bin {
             2 => b.append_nulls(r.below(9)),
             3 => {
                 let a = LargeBinaryArray::from_iter(opt_strs(r, 6).into_iter().map(|x| x.map(|s| s.as_bytes())));
-                b.append_array(&maybe_slice(r, a, |a, o, l| a.slice(o, l)))
+                b.append_array(&maybe_slice(r, a, |a, o, l| a.slice(o, l))).unwrap()
             }
             4 => b.extend([Some(&b"ab"[..]), None, Some(&[0xFFu8; 20][..])]),
             _ => b.append_value_n([1u8, 2], r.below(4)),
@@ -233,7 +233,7 @@ impl Hist for SView {
             2 => b.try_append_value(long(r)).unwrap(),
             3 => b.append_option(if r.chance(40) { None } else { Some(any_str(r)) }),
             4 => b.append_null(),
-            5 => b.extend(opt_strs(r, r.below(5))),
+            5 => { let k = r.below(5); b.extend(opt_strs(r, k)) },
             6 => {
                 let blk = b.append_block(Buffer::from_vec(ASCII_BLOCK.to_vec()));
                 self.blocks.push((blk, ASCII_BLOCK.len()));
@@ -334,10 +334,11 @@ impl Hist for ListStr {
                 b.values().append_value(short(r));
                 b.append(r.chance(80))
             }
-            1 => b.append_value(opt_strs(r, r.below(4))),
+            1 => { let k = r.below(4); b.append_value(opt_strs(r, k)) }
             2 => b.append_null(),
             3 => {
-                b.values().append_array(&view_source(r, 1 + r.below(3)));
+                let k = 1 + r.below(3);
+                b.values().append_array(&view_source(r, k));
                 b.append(true)
             }
             _ => b.extend([Some(vec![Some(long(r)), None]), None]),
@@ -530,7 +531,7 @@ impl Hist for SDict {
             5 => b.append_nulls(r.below(5)),
             6 => b.append_option(if r.chance(50) { None } else { Some(short(r)) }),
             7 => b.append_options(if r.chance(50) { None } else { Some(long(r)) }, r.below(4)),
-            _ => b.extend(opt_strs(r, r.below(5))),
+            _ => { let k = r.below(5); b.extend(opt_strs(r, k)) },
         }
     }
     fn finish(&mut self) -> ArrayRef { if self.1 { Arc::new(self.0.finish_preserve_values()) } else { Arc::new(self.0.finish()) } }
